@@ -6,6 +6,7 @@ import (
 	"fmt"
 	"time"
 
+	"github.com/mandykoh/prism/meta"
 	"github.com/mandykoh/prism/meta/binary"
 	"github.com/mandykoh/prism/meta/icc"
 
@@ -216,10 +217,28 @@ func (c16) Run(t *tape.Tape, st *Stats) *Violation {
 	var p *icc.Profile
 	var err error
 	var panicked interface{}
+	// one run in five goes through the accessor of a meta.Data that has held (and
+	// parsed) another profile before: Set...(A); ICCProfile(); Set...(this); ICCProfile()
+	viaData := t.Intn(5) == 0
+	dseed := t.Draw(1 << 40)
+	if mode != 5 {
+		viaData = false // the bit sweeps go through the simulated reader, every case
+	}
 	func() {
 		defer func() { panicked = recover() }()
+		if viaData {
+			md := &meta.Data{}
+			a := refmodel.DrawICC(tape.New(dseed, nil), refmodel.ICCOpts{MaxTags: 3})
+			md.SetICCProfileData(a.Bytes)
+			md.ICCProfile()
+			md.SetICCProfileData(data)
+			p, err = md.ICCProfile()
+			how = "meta.Data.ICCProfile() after the same Data held another profile"
+			return
+		}
 		p, err = icc.NewProfileReader(rd).ReadProfile()
 	}()
+	st.Probe("through_meta.Data_accessor_with_history", viaData)
 	st.Class([...]string{"walking-one", "walking-zero", "version-sweep", "date-extremes", "constant", "random"}[mode])
 	deliveryStats(st, src)
 	st.Probe("profile_id_read_straddled_delivery", src.ShortReads > 0 && cfg.Policy != simio.Full)
@@ -242,7 +261,7 @@ func (c16) Run(t *tape.Tape, st *Stats) *Violation {
 		st.Sample(render())
 	}
 	fail := func(field, detail string) *Violation {
-		return &Violation{Class: field, Sig: "header:" + field, Detail: detail + " [" + what + "]" + faultNote(cfg, src.ErrFired), Render: render(), OwnHistory: earlierRead}
+		return &Violation{Class: field, Sig: "header:" + field, Detail: detail + " [" + what + "]" + faultNote(cfg, src.ErrFired), Render: render(), OwnHistory: earlierRead || viaData}
 	}
 	if panicked != nil {
 		return fail("panic", fmt.Sprintf("ReadProfile panicked: %v", panicked))
